@@ -32,6 +32,7 @@ pub struct SeqSpec {
     /// every mutating operation is followed by `Flush`
     pub post_flush: bool,
     pub extra: Option<ExtraCheck>,
+    pub extra_param: usize,
     /// operations applied (unchecked) before exploration starts
     pub setup: Vec<Op>,
 }
